@@ -70,8 +70,11 @@ def run_sessions(o, binary, sessions, mode, tag):
         name, steps = s
         sess = crashrun.record_session(binary, "%s-%s" % (tag, name), steps, seed=SEED)
         pts = sess["points"]
-        res = crashrun.recover_points(binary, sess, pts)
-        return sess, pts, res
+        if mode == "async":
+            # byte-level cuts of the newest WAL file (reachable with a buffered log); not protocol steps, so they are appended
+            sess["cuts"] = crash.wal_cut_points(pts, sess["root"])
+        res = crashrun.recover_points(binary, sess, pts + sess.get("cuts", []))
+        return sess, pts + sess.get("cuts", []), res
 
     recs = common.parallel(rec, sessions, nthreads=4)
     lines = []
